@@ -44,4 +44,11 @@ def rule_write_rows_agrees_with_write_row(ctx):
     protocol.write_rows_agreement_table(ctx, "O14.3")
 
 
-RULES = [rule_writer, rule_validation_is_the_readers, rule_write_rows_agrees_with_write_row, rule_module_state]
+def rule_fixed_files_keep_their_line_ends(ctx):
+    """O14.4: fixed-width data read from a path is opened with newline="" (C12's rule for the fixed reader and the writers)."""
+    from .c12 import rule_newline
+
+    rule_newline(ctx, "O14.4", (("cutplace.rowio.fixed_rows", "r"), ("cutplace.rowio.AbstractRowWriter.__init__", "w")))
+
+
+RULES = [rule_writer, rule_validation_is_the_readers, rule_write_rows_agrees_with_write_row, rule_fixed_files_keep_their_line_ends, rule_module_state]
